@@ -1476,3 +1476,7 @@ mod tests {
   //   let _data2 = to_bytes::<ParticipantMessageData,
   // LittleEndian>(&rpi).unwrap(); }
 }
+
+#[cfg(rustdds_verif)]
+#[path = "/verif/harness/incrate/access/sedp_messages.rs"]
+mod verif_access;
